@@ -21,13 +21,20 @@ def load_baseline():
         return {l.strip() for l in fh if l.strip() and not l.startswith("#")}
 
 
+_OVERRIDDEN = set()   # paths of trait default methods some impl overrides (filled by apply)
+
+
 def _callee(term):
     c = term.get("callee") or {}
     r = c.get("resolved")
     if r:
         return r["path"] if r.get("local") else None
-    if c.get("local") and "path" in c and not c.get("trait"):
-        return c["path"]
+    if c.get("local") and "path" in c:
+        if not c.get("trait"):
+            return c["path"]
+        # `Self::helper(..)` inside a trait's provided method: the default body is the callee unless an impl overrides it
+        if c["path"] not in _OVERRIDDEN:
+            return c["path"]
     return None
 
 
@@ -148,15 +155,281 @@ def _retarget(t, new_of):
     return o
 
 
+def _agg(dest, types, vname, ops, line):
+    t = types[dest["ty"]]
+    vs = t.get("variants") or []
+    v = [x for x in vs if x["name"] == vname][0]
+    return {"k": "assign", "place": dest, "line": line, "desugared": True,
+            "rv": {"k": "agg", "ak": "adt", "path": t["path"], "variant": v["discr"], "vname": vname, "fields": [f["name"] for f in v["fields"]],
+                   "args": t.get("args", []), "union_field": None, "ops": ops}}
+
+
+def desugar_std(d):
+    """Closure-free Option/Result/bool adaptors are replaced by the match they stand for, so that the rules see the
+    aggregates and the branch:  b.then_some(v)  ->  if b { Some(v) } else { None };  o.ok_or(e)  ->  match o { Some(v) =>
+    Ok(v), None => Err(e) };  r.ok()  ->  match r { Ok(v) => Some(v), Err(_) => None }."""
+    types = d["types"]
+    n = 0
+    for j in d["bodies"]:
+        m = j.get("mir")
+        if not m:
+            continue
+        touched = False
+        for bi in range(len(m["blocks"])):
+            b = m["blocks"][bi]
+            t = b.get("term")
+            if not t or t["k"] != "call" or b.get("cleanup") or t.get("target") is None:
+                continue
+            p = (t["callee"].get("resolved") or {}).get("path") or t["callee"].get("path") or ""
+            dest, tgt, line = t["dest"], t["target"], t.get("line")
+            dt = types[dest["ty"]] if isinstance(dest.get("ty"), int) else {}
+            if not dt.get("variants"):
+                continue
+            nb = len(m["blocks"])
+
+            def blk(stmts):
+                return {"stmts": stmts, "term": {"k": "goto", "target": tgt, "line": line}, "desugared": True}
+            if p == "core::bool::<impl bool>::then_some" and len(t["args"]) == 2:
+                cond, v = t["args"]
+                bty = (cond.get("move") or cond.get("copy") or cond.get("const") or {}).get("ty")
+                m["blocks"].append(blk([_agg(dest, types, "Some", [v], line)]))
+                m["blocks"].append(blk([_agg(dest, types, "None", [], line)]))
+                b["term"] = {"k": "switch", "discr": cond, "dty": bty, "targets": [[0, nb + 1]], "otherwise": nb, "line": line, "exp": False,
+                             "was_call": p}
+            elif p in ("std::option::Option::<T>::ok_or", "std::result::Result::<T, E>::ok") and len(t["args"]) >= 1:
+                src = t["args"][0]
+                spl = src.get("move") or src.get("copy")
+                if spl is None:
+                    continue
+                st = types[spl["ty"]]
+                if not st.get("variants"):
+                    continue
+                # discriminant temp
+                ity = None
+                for i, ty in enumerate(types):
+                    if ty.get("k") == "int" and ty.get("s") == "isize":
+                        ity = i
+                if ity is None:
+                    continue
+                dl = len(m["locals"])
+                m["locals"].append({"ty": ity, "mut": True})
+                b["stmts"].append({"k": "assign", "place": {"l": dl, "p": [], "ty": ity}, "rv": {"k": "discr", "place": spl}, "line": line, "desugared": True})
+                if p.endswith("ok_or"):
+                    sv = [x for x in st["variants"] if x["name"] == "Some"][0]
+                    inner = {"move": {"l": spl["l"], "p": spl["p"] + [{"downcast": sv["discr"], "name": "Some"}, {"field": 0, "name": "0", "ty": sv["fields"][0]["ty"]}],
+                                      "ty": sv["fields"][0]["ty"]}}
+                    m["blocks"].append(blk([_agg(dest, types, "Ok", [inner], line)]))
+                    m["blocks"].append(blk([_agg(dest, types, "Err", [t["args"][1]], line)]))
+                    b["term"] = {"k": "switch", "discr": {"move": {"l": dl, "p": [], "ty": ity}}, "dty": ity, "targets": [[sv["discr"], nb]], "otherwise": nb + 1,
+                                 "line": line, "exp": False, "was_call": p}
+                else:
+                    ov = [x for x in st["variants"] if x["name"] == "Ok"][0]
+                    inner = {"move": {"l": spl["l"], "p": spl["p"] + [{"downcast": ov["discr"], "name": "Ok"}, {"field": 0, "name": "0", "ty": ov["fields"][0]["ty"]}],
+                                      "ty": ov["fields"][0]["ty"]}}
+                    m["blocks"].append(blk([_agg(dest, types, "Some", [inner], line)]))
+                    m["blocks"].append(blk([_agg(dest, types, "None", [], line)]))
+                    b["term"] = {"k": "switch", "discr": {"move": {"l": dl, "p": [], "ty": ity}}, "dty": ity, "targets": [[ov["discr"], nb]], "otherwise": nb + 1,
+                                 "line": line, "exp": False, "was_call": p}
+            else:
+                continue
+            touched = True
+            n += 1
+        if touched:
+            _renumber(j)
+    return n
+
+
+def _const_of(op):
+    c = op.get("const") if isinstance(op, dict) else None
+    if not c:
+        return None
+    v = c.get("v") or {}
+    if "bool" in v:
+        return 1 if v["bool"] else 0
+    if "int" in v:
+        return int(v["int"])
+    return None
+
+
+def thread_jumps(j, max_chain=3, max_stmts=12):
+    """Jump threading: a block that stores a constant into a flag and then, through at most `max_chain` straight-line
+    blocks, reaches a switch on that flag (possibly after the flag was moved to another local) continues at the switch's
+    target for that constant; the straight-line blocks on the way are duplicated.  `let ok = a && b; if ok {..}`,
+    `matches!(..)` and a bool-returning helper after inlining thereby get the same CFG as nested ifs."""
+    m = j.get("mir")
+    if not m:
+        return 0
+    blocks = m["blocks"]
+    n = 0
+    for _round in range(6):
+        changed = False
+        for pi in range(len(blocks)):
+            P = blocks[pi]
+            t = P.get("term")
+            if not t or t["k"] != "goto" or P.get("cleanup"):
+                continue
+            # constants known at the end of P (last definition of a whole local by a constant)
+            known = {}
+            for st in P.get("stmts", []):
+                if st.get("k") != "assign":
+                    continue
+                pl = st["place"]
+                if pl["p"]:
+                    known.pop(pl["l"], None) if False else None
+                    continue
+                rv = st["rv"]
+                c = _const_of(rv.get("op")) if rv["k"] == "use" else None
+                if c is not None:
+                    known[pl["l"]] = c
+                elif rv["k"] == "use" and (rv["op"].get("move") or rv["op"].get("copy")) and not (rv["op"].get("move") or rv["op"].get("copy"))["p"] \
+                        and (rv["op"].get("move") or rv["op"].get("copy"))["l"] in known:
+                    known[pl["l"]] = known[(rv["op"].get("move") or rv["op"].get("copy"))["l"]]
+                else:
+                    known.pop(pl["l"], None)
+            if not known:
+                continue
+            chain = []
+            cur = t["target"]
+            kn = dict(known)
+            hit = None
+            nst = 0
+            while len(chain) <= max_chain:
+                B = blocks[cur]
+                if B.get("cleanup") or cur == pi or cur in chain:
+                    break
+                okb = True
+                for st in B.get("stmts", []):
+                    if st.get("k") != "assign":
+                        continue
+                    nst += 1
+                    pl = st["place"]
+                    rv = st["rv"]
+                    src = (rv.get("op") or {}).get("move") or (rv.get("op") or {}).get("copy") if rv["k"] == "use" else None
+                    if not pl["p"] and rv["k"] == "use" and src and not src["p"] and src["l"] in kn:
+                        kn[pl["l"]] = kn[src["l"]]
+                    elif not pl["p"] and rv["k"] == "use" and _const_of(rv.get("op")) is not None:
+                        kn[pl["l"]] = _const_of(rv["op"])
+                    elif not pl["p"]:
+                        kn.pop(pl["l"], None)
+                    # a mutable borrow of a known local would make the constant unreliable
+                    if rv["k"] == "ref" and rv["place"]["l"] in kn:
+                        okb = False
+                if not okb or nst > max_stmts:
+                    break
+                bt = B.get("term")
+                chain.append(cur)
+                if bt and bt["k"] == "switch":
+                    op = bt["discr"].get("move") or bt["discr"].get("copy")
+                    if op and not op["p"] and op["l"] in kn:
+                        v = kn[op["l"]]
+                        tg = None
+                        for cv, ctg in bt["targets"]:
+                            if cv == v:
+                                tg = ctg
+                        hit = tg if tg is not None else bt["otherwise"]
+                    break
+                if bt and bt["k"] == "goto":
+                    cur = bt["target"]
+                    continue
+                break
+            if hit is None:
+                continue
+            # duplicate the chain's statements into P, continue at the decided target
+            for ci in chain:
+                P.setdefault("stmts", [])
+                P["stmts"] += copy.deepcopy(blocks[ci].get("stmts", []))
+            P["term"] = {"k": "goto", "target": hit, "line": t.get("line"), "threaded": True}
+            changed = True
+            n += 1
+        if not changed:
+            break
+    if n:
+        _drop_dead_flag_stores(m)
+    return n
+
+
+def _uses_local(x, l):
+    """Does the JSON fragment read local l (operand, place base of a read, index)?"""
+    if isinstance(x, list):
+        return any(_uses_local(e, l) for e in x)
+    if not isinstance(x, dict):
+        return False
+    for k, v in x.items():
+        if k in ("move", "copy") and isinstance(v, dict) and v.get("l") == l:
+            return True
+        if k == "index" and v == l:
+            return True
+        if k == "place" and isinstance(v, dict) and v.get("l") == l and x.get("k") in ("ref", "discr", "rawptr", "len"):
+            return True
+        if _uses_local(v, l):
+            return True
+    return False
+
+
+def _drop_dead_flag_stores(m):
+    """After threading, `flag = const` in a threaded block is dead when no block reachable from it reads the flag."""
+    blocks = m["blocks"]
+
+    def succs(b):
+        t = b.get("term")
+        if not t or b.get("cleanup"):
+            return []
+        k = t["k"]
+        if k == "goto":
+            return [t["target"]]
+        if k == "switch":
+            return [x[1] for x in t["targets"]] + [t["otherwise"]]
+        if k in ("call", "assert", "drop"):
+            return [t["target"]] if t.get("target") is not None else []
+        return []
+    for pi, P in enumerate(blocks):
+        if not (P.get("term") or {}).get("threaded"):
+            continue
+        reach = set()
+        work = succs(P)
+        while work:
+            b = work.pop()
+            if b in reach:
+                continue
+            reach.add(b)
+            work += succs(blocks[b])
+        keep = []
+        stmts = P.get("stmts", [])
+        for si, st in enumerate(stmts):
+            if st.get("k") == "assign" and not st["place"]["p"] and st["rv"]["k"] == "use" and _const_of(st["rv"].get("op")) is not None:
+                l = st["place"]["l"]
+                if l == 0:
+                    keep.append(st)
+                    continue
+                later = any(_uses_local(x, l) for x in stmts[si + 1:]) or _uses_local(P.get("term"), l)
+                elsewhere = any(_uses_local(blocks[b].get("stmts"), l) or _uses_local(blocks[b].get("term"), l) for b in reach)
+                if not later and not elsewhere:
+                    continue
+            keep.append(st)
+        P["stmts"] = keep
+
+
 def apply(d, baseline=None):
     """Inline non-baseline helpers in the facts dict `d` (in place).  Returns {helper path: [callers]}."""
     if baseline is None:
         baseline = load_baseline()
     if baseline is None:
         return {}
+    desugar_std(d)
+    for j in d["bodies"]:
+        if thread_jumps(j):
+            _renumber(j)
     bodies = {}
     for j in d["bodies"]:
         bodies.setdefault(j["path"], j)
+    _OVERRIDDEN.clear()
+    for im in d.get("impls", []):
+        tr = im.get("trait")
+        if not tr:
+            continue
+        for it in im.get("items", []):
+            if it.get("kind") == "AssocFn":
+                _OVERRIDDEN.add("%s::%s" % (tr, it["name"]))
     helpers = {p for p, j in bodies.items() if p not in baseline and j.get("kind") in ("Fn", "AssocFn") and j.get("mir")}
     # a renamed/moved closure is not a helper; pyo3-generated wrappers are never called directly
     helpers = {p for p in helpers if "{closure" not in p and "__pymethod" not in p and "__pyfunction" not in p and "_PYO3" not in p}
@@ -203,6 +476,7 @@ def apply(d, baseline=None):
                     report.setdefault(c, []).append(j["path"])
                     changed = True
         if n:
+            thread_jumps(j)
             _renumber(j)
         # calls left (recursion / size bound)
         for b in j["mir"]["blocks"]:
